@@ -2,12 +2,12 @@
 # tools/try_seed.sh <dir with patch.diff + demo.py> <PROP> [tier] : confirm the seeded change (demo passes unpatched, fails
 # patched) and run the property's check against a scratch copy of /repo with the patch applied (FDTDX_REPO), never /repo itself.
 D="$1"; P="$2"; T="${3:-quick}"
-S=/tmp/seedrun_$P
+S=/tmp/seedrun_${P}_$$
 rm -rf "$S"; mkdir -p "$S"; cp -r /repo/src "$S/src"; cp -r /repo/tests "$S/tests" 2>/dev/null
-(cd /repo && PYTHONPATH=/repo/src JAX_PLATFORMS=cpu timeout 900 /venv/bin/python "$D/demo.py" >/tmp/seedrun_$P.unpatched.log 2>&1); U=$?
+(cd /repo && PYTHONPATH=/repo/src JAX_PLATFORMS=cpu timeout 900 /venv/bin/python "$D/demo.py" >$S.unpatched.log 2>&1); U=$?
 (cd "$S" && patch -p1 -s < "$D/patch.diff") || { echo "patch does not apply"; exit 2; }
-(cd "$S" && PYTHONPATH="$S/src" JAX_PLATFORMS=cpu timeout 900 /venv/bin/python "$D/demo.py" >/tmp/seedrun_$P.patched.log 2>&1); C=$?
+(cd "$S" && PYTHONPATH="$S/src" JAX_PLATFORMS=cpu timeout 900 /venv/bin/python "$D/demo.py" >$S.patched.log 2>&1); C=$?
 echo "demo: unpatched exit=$U patched exit=$C"
 cd /verif && FDTDX_REPO="$S" timeout 3000 ./check "$P" --tier "$T" --jobs 4 2>&1 | grep -v "jax.debug" | grep "VIOLATION\|KNOWN\|^\[$P\|INCONCLUSIVE" | head -8 | cut -c1-400
 echo "check exit=$?"
-rm -rf "$S"
+rm -rf "$S" "$S.unpatched.log" "$S.patched.log"
